@@ -49,12 +49,18 @@ def encode_tables(ctx, key):
                 if is_const(what):
                     w = "const:%s" % what[1]
                 else:
-                    fp = []
-                    x = what
-                    while isinstance(x, tuple) and x and x[0] == "field":
-                        fp.append(x[2])
-                        x = x[1]
-                    w = ".".join(reversed(fp))
+                    def fpath(x):
+                        fp = []
+                        while isinstance(x, tuple) and x and x[0] == "field":
+                            fp.append(x[2])
+                            x = x[1]
+                        return ".".join(reversed(fp))
+                    w = fpath(what)
+                    if not w and isinstance(what, tuple) and what and what[0] == "var":
+                        # a binding shared by several arms (`Commit(id) | PurgeUpto(id) => id.encode(..)`): the same field in each of them
+                        names = {fpath(strip_ids(x)) for x in value_sources(g, event_args(g, n)[0])}
+                        if len(names) == 1:
+                            w = names.pop()
                 seq = seq + (("enc", w, ty_of_codec_call(t)),)
             elif nm == "write_checksum":
                 seq = seq + (("crc", "", ""),)
@@ -394,6 +400,10 @@ def run(ctx, rep):
                     pend.add(("r", n))
                     carry.add((dl, ("r", n)))
                 elif cmatch(t, r"ops::Try::branch$|ops::FromResidual"):
+                    carry |= {(dl, i) for i in c}
+                elif cmatch(t, r"slice::<impl \[T\]>::iter$|IntoIterator>?::into_iter$|iter::Iterator>?::(sum|copied|cloned)$|iter::Sum(<.*>)?>?::sum$|"
+                               r"array::<impl .*>::(iter|into_iter|as_slice)$|ops::Deref::deref$"):
+                    # the per-field counts gathered in an array / iterator and summed: the sum carries every one of them
                     carry |= {(dl, i) for i in c}
             return (frozenset(pend), frozenset(carry))
 
